@@ -100,7 +100,7 @@ func (c *Ctx) Distinct(parts ...interface{}) {
 		return
 	}
 	h := mix(0x51ed, parts...)
-	if len(c.st.distinct) < 4_000_000 {
+	if len(c.st.distinct) < 400_000 { // capped per worker: distinct_nontrivial is a lower bound in very large runs
 		c.st.distinct[h] = struct{}{}
 	}
 }
